@@ -1,5 +1,5 @@
 -- REGENERATED on every run by harness/translate/carried.py from the current source (do not edit)
--- property C20: findings of the carried-state analysis that are not on record in carried_baseline.json
+-- property C03: findings of the carried-state analysis that are not on record in carried_baseline.json
 namespace TopSearch.Gen.Carried
 def unrecorded : List String := []
 end TopSearch.Gen.Carried
